@@ -136,6 +136,7 @@ def observe_pool(I, ident):
     if p is None:
         I.observe('pool:%s' % ident, None)
         return
+    I.observe('poolorder:%s' % ident, [c.get('denom') for c in p.get('assets').e])
     for c in p.get('assets').e:
         I.observe('pool:%s:%s' % (ident, c.get('denom')), c.get('amount'))
 
@@ -184,6 +185,11 @@ def obs_steps_and_judge(obs, tx_index):
                 assets = r['ok']['pools'][0]['pool_info']['assets']
                 amap = {a['denom']: int(a['amount']) for a in assets}
                 addrs = out.get('addrs', {})
+                order = obs.get('poolorder:%s' % pid)
+                if order is not None:
+                    native_order = [a['denom'] for a in assets]
+                    if native_order != [_native_denom(d, addrs) for d in order]:
+                        diffs.append('poolorder:%s predicted %s native %s' % (pid, order, native_order))
                 for kk, v in obs.items():
                     if kk.startswith('pool:%s:' % pid):
                         d = _native_denom(':'.join(kk.split(':')[2:]), addrs)
